@@ -9,6 +9,7 @@
 #include "vf/gen.hpp"
 #include "vf/c03_hll_model.hpp"
 #include <memory>
+#include <sstream>
 
 using namespace datasketches;
 namespace vf {
@@ -59,7 +60,8 @@ struct Model {
 
 struct Sk {
   std::unique_ptr<hll_sketch> s;
-  int type; bool full; int order;            // order 0 = A (as generated), 1 = B (chunks permuted), 2 = C (whole stream reversed)
+  int type; bool full; int order;            // order 0 = A (as generated), 1 = B (chunks permuted), 2 = C (whole stream reversed),
+                                             // 3 = D: fed like A, but now and then replaced by its own deserialized image
   int prev_cur_min = -1;
   std::vector<uint32_t> prev_aux;
   std::vector<uint8_t> prev_aux_vals;
@@ -131,6 +133,35 @@ static void check_content(const Decoded& d, const Model& m, const std::vector<ui
     if (df.lost) fail(keyp + "|hll-mode|register-below-model", ctx + df.detail);
     if (df.extra) fail(keyp + "|hll-mode|register-above-model", ctx + df.detail);
   }
+}
+
+// Replace the sketch by what deserialize() makes of one of its own images, then re-present inputs it already holds.
+static void roundtrip(Case& C, Rng& r, Sk& K, const std::vector<Val>& held) {
+  static const char* forms[] = {"compact-bytes", "updatable-bytes", "compact-stream", "updatable-stream"};
+  const int form = static_cast<int>(r.below(4));
+  const Decoded before = read_native(*K.s);
+  const std::string ctx = C.cfg + " fed=" + std::to_string(C.fed) + " sketch=" + type_name(K.type) + " form=" + forms[form] + " mode=" + mode_name(before.mode);
+  size_t re = 0;
+  try {
+    if (form == 0) { auto b = K.s->serialize_compact(); hll_sketch rs = hll_sketch::deserialize(b.data(), b.size()); *K.s = std::move(rs); }
+    else if (form == 1) { auto b = K.s->serialize_updatable(); hll_sketch rs = hll_sketch::deserialize(b.data(), b.size()); *K.s = std::move(rs); }
+    else {
+      std::stringstream ss(std::ios::in | std::ios::out | std::ios::binary);
+      if (form == 2) K.s->serialize_compact(ss); else K.s->serialize_updatable(ss);
+      hll_sketch rs = hll_sketch::deserialize(ss);
+      *K.s = std::move(rs);
+    }
+    if (!held.empty()) {
+      re = 1 + r.below(8);
+      for (size_t i = 0; i < re; ++i) apply_update(*K.s, held[r.below(held.size())]);
+    }
+  } catch (const std::exception& e) {
+    checked();
+    fail(std::string("restored|") + forms[form] + "|deserialize-or-valid-update-threw", ctx + " what=" + e.what());
+  }
+  count(std::string("restored_from_") + forms[form]);
+  count(std::string("restored_in_mode_") + mode_name(before.mode));
+  if (re > 0) count(std::string("restored_from_") + forms[form] + "_in_" + mode_name(before.mode) + "_mode_then_re_presented_held_input");
 }
 
 static Sk* find_sk(Case& C, int type, bool full, int order) {
@@ -274,6 +305,13 @@ static void checkpoint(Case& C, Rng& r, bool final_cp) {
     for (int t = 0; t < 3; ++t) {
       Sk* ref = find_sk(C, t, full != 0, 0);
       if (!ref) continue;
+      if (Sk* o = find_sk(C, t, full != 0, 3)) {
+        // same stream, same order, but restored from its own images along the way: same estimates as the twin
+        const std::string ctx = ctx0 + (full ? " full " : " lazy ") + type_name(t) + " restored twin vs never-serialized twin";
+        VF_CHECK(rel_eq(o->comp, ref->comp, 1e-12), "restored-twin|composite-estimate-differs-from-never-serialized-twin", ctx + " " + str(o->comp) + " vs " + str(ref->comp));
+        VF_CHECK(rel_eq(o->est, ref->est, 1e-12), "restored-twin|estimate-differs-from-never-serialized-twin", ctx + " " + str(o->est) + " vs " + str(ref->est));
+        count("restored_twin_comparisons");
+      }
       for (int order = 1; order < 3; ++order) {
         Sk* o = find_sk(C, t, full != 0, order);
         if (!o) continue;
@@ -430,6 +468,8 @@ void run_case(uint64_t idx, Rng& r) {
   }
   const bool do_reset_history = r.chance(0.12);
   const bool do_recopy = r.chance(0.3);
+  const bool do_roundtrip = !bigset && !mega && r.chance(0.6);
+  std::vector<Val> held;     // a sample of inputs already presented (re-presented to restored sketches)
   const bool shuffle_b = r.coin();
   C.cfg = std::string(bigset ? "BIGSET " : (levels ? "LEVELS " : "")) + "lg_k=" + std::to_string(lg_k) + " n=" + std::to_string(n) + " dup=" + str(C.dup_p) + " kind=" + std::to_string(C.fixed_kind) +
     " domain=" + std::to_string(C.domain) + " inject=" + std::to_string(C.inject.size()) + " same_addr_pairs=" + std::to_string(C.planted.size()) + " reset_history=" + std::to_string(do_reset_history);
@@ -447,6 +487,7 @@ void run_case(uint64_t idx, Rng& r) {
     count("bigset_cases");
   } else if (!mega) {
     for (int t = 0; t < 3; ++t) for (int f = 0; f < 2; ++f) for (int o = 0; o < 2; ++o) add_sk(t, f != 0, o);
+    if (do_roundtrip) { for (int t = 0; t < 3; ++t) add_sk(t, false, 3); if (r.coin()) add_sk(static_cast<int>(r.below(3)), true, 3); }
   } else {
     add_sk(0, false, 0); add_sk(1, false, 0); add_sk(2, false, 0); add_sk(0, true, 1); add_sk(2, true, 1); add_sk(0, false, 1);
     count("mega_streams");
@@ -489,8 +530,9 @@ void run_case(uint64_t idx, Rng& r) {
     recs.push_back(rec);
     // order A
     for (const Val& v : vals) {
-      for (Sk& K : C.sks) if (K.order == 0) apply_update(*K.s, v);
+      for (Sk& K : C.sks) if (K.order == 0 || K.order == 3) apply_update(*K.s, v);
       if (v.ignored()) { count("ignored_empty_string"); continue; }
+      if (do_roundtrip) { if (held.size() < 64) held.push_back(v); else if (r.chance(0.05)) held[r.below(64)] = v; }
       C.m.add(coupon_of(v));
       if (v.kind == V_F64 && (std::isnan(v.d) || (v.d == 0 && std::signbit(v.d)))) count("special_double");
     }
@@ -523,6 +565,14 @@ void run_case(uint64_t idx, Rng& r) {
             for (size_t j = vv.size(); j-- > 0;) for (size_t q = first_new; q < C.sks.size(); ++q) apply_update(*C.sks[q].s, vv[j]);
           }
           count("full_reverse_orders");
+        }
+      }
+      if (do_roundtrip && r.chance(C.cp_every ? 0.15 : 0.35)) {
+        std::vector<Sk*> cand;
+        for (Sk& K : C.sks) if (K.order == 3) cand.push_back(&K);
+        if (!cand.empty()) {
+          roundtrip(C, r, *cand[r.below(cand.size())], held);
+          if (r.coin()) roundtrip(C, r, *cand[r.below(cand.size())], held);
         }
       }
       if (do_recopy && r.chance(0.2)) {
